@@ -205,6 +205,25 @@ func (s *Sched) hook(op int, m interface{}) {
 	}
 }
 
+// tryHook answers Mutex.TryLock: a choice point like Lock (who runs next is decided before the attempt), never blocking - the
+// mutex is taken if nobody holds it when the thread is resumed.
+func (s *Sched) tryHook(m interface{}) bool {
+	t := s.cur
+	s.yield <- struct{}{}
+	<-t.wake
+	if _, isHeld := s.held[m]; isHeld {
+		s.res.Contended++
+		return false
+	}
+	s.held[m] = t.id
+	if s.mem != nil {
+		c := s.mc(m)
+		t.vc.join(&c.w)
+		t.vc.join(&c.r)
+	}
+	return true
+}
+
 // Run executes the thread bodies under the schedule dictated by ch and returns what happened.
 // It must be called with no other goroutine touching pkg/ggql.
 func Run(ch *core.Chooser, fine bool, fns ...func(s *Sched)) *Result {
@@ -239,7 +258,8 @@ func Run(ch *core.Chooser, fine bool, fns ...func(s *Sched)) *Result {
 		panic(core.EngineError{Msg: "sched: a scheduler is already installed"})
 	}
 	vsync.Hook = s.hook
-	defer func() { vsync.Hook = nil }()
+	vsync.HookTry = s.tryHook
+	defer func() { vsync.Hook, vsync.HookTry = nil, nil }()
 	for _, t := range s.threads {
 		t := t
 		go func() {
